@@ -654,6 +654,7 @@ func runImp() {
 		n := leanName(d)
 		targets = append(targets, impTarget{dir: d, file: "element.go", ns: "H2F_" + n, out: "Imp/H2F_" + n + ".lean", funcs: []string{"SetBigInt", "Hash"}, elem: "Element", mode: "h2f"})
 	}
+	targets = append(targets, impTarget{dir: "ecc/bn254/fr", file: "element.go", ns: "H2F_generic", out: "Imp/H2F_generic.lean", funcs: []string{"SetBigInt", "Hash"}, elem: "Element", mode: "h2f"})
 	defer func() {
 		if impOnly == "" || impOnly == "H2F" {
 			writeH2FAll(expNames)
@@ -692,6 +693,7 @@ func runImp() {
 			continue
 		}
 		impAbsParams, impAbsArgs = "", ""
+		h2fGeneric = tg.ns == "H2F_generic"
 		if tg.elem != "" && tg.mode == "" {
 			impAbsParams, impAbsArgs = " {F : Type} (mul : F → F → F) (one : F) (inv : F → F)", " mul one inv"
 		}
